@@ -362,6 +362,11 @@ class DataQuerent(object):
     def query_compressed_data(self, template_data, node_path, subset_indices):
         path_query_result = QueryResult()
 
+        # No subset is selected (e.g. @[7:] on a message of two subsets): the result is
+        # empty whatever the path is, as it is for uncompressed data.
+        if not subset_indices:
+            return path_query_result
+
         nodes = self.process_one_subset(
             template_data.decoded_nodes_all_subsets[0],
             node_path
